@@ -510,7 +510,7 @@ def nsdmi_to_meminit(text, classes):
     classes: {name: ctor_head_regex or None}.  Returns (text, {class: [members]})."""
     done = {}
     for cls, ctor_rx in classes.items():
-        m = re.search(r'^(?:template<[^\n]*> )?class %s\b[^\n]*\n\{\n(.*?)^\}; // %s' % (cls, cls), text, flags=re.M | re.S)
+        m = re.search(r'^(?:template<[^\n]*> )?class %s\b[^{;]*\{\n(.*?)^\}; // %s' % (cls, cls), text, flags=re.M | re.S)
         if not m:
             raise Undecided('R-NSDMI: class %s not found' % cls)
         body = m.group(1)
